@@ -10,17 +10,65 @@ package primitives
 //     which is Go's resolver over the in-process fake name server;
 //  3. probes the dial guard installed in the REAL client (unknown network name, no socket).
 //
+// History cases (VERIF_NET_MODE=hist) run in a process of their own each: every fetch of the history gets a fresh PDF
+// (as every create / form-fill run does), asks it for its client and runs the real fetch path through the guard that
+// client really carries (realGuard).
+//
 // Records go to VERIF_NET_FLOWS and VERIF_NET_PROBES; TLC (spec/NetTrace.tla) judges them.
 
 import (
 	"fmt"
 	"net"
+	"net/http"
 	"os"
+	"path/filepath"
 	"testing"
 	"time"
 )
 
+func vnetImageFetch(t *testing.T, c vnetCase, realGuard bool) (vnetFlowRec, *http.Transport) {
+	realPDF := &PDF{Timeout: 5}
+	real := realPDF.imageBoxHTTPClient()
+	info, realTr := vnetInspect(real, imageBoxRedirect)
+	if realTr == nil {
+		t.Fatalf("imageBoxHTTPClient does not use an *http.Transport: the shim has to be adapted")
+	}
+	run := vnetNewRun(c)
+	tr := realTr.Clone()
+	if realGuard {
+		tr.DialContext = run.wrapHost(run.realGuard(realTr.DialContext))
+	} else {
+		dialer := &net.Dialer{Timeout: 5 * time.Second, Control: run.control}
+		tr.DialContext = run.wrapHost(imageBoxDialContext(dialer))
+	}
+	client := *real
+	client.Transport = &vnetRT{run: run, real: tr}
+
+	pdf := &PDF{Timeout: 5, httpClient: &client}
+	ib := &ImageBox{pdf: pdf, Src: c.Hops[0].URL}
+	rc, err := ib.resource()
+	if rc != nil {
+		rc.Close()
+	}
+	tr.CloseIdleConnections()
+	return run.finish(info, fmt.Sprint(err)), realTr
+}
+
 func TestVerifNetImageBox(t *testing.T) {
+	if one := os.Getenv("VERIF_NET_ONE"); one != "" { // child: the histories of this fresh process
+		cases, err := vnetHistChild(one)
+		if err != nil {
+			t.Fatal(err)
+		}
+		vnetInstallResolver()
+		for _, c := range cases {
+			for _, f := range vnetFetches(c) {
+				rec, _ := vnetImageFetch(t, f, true)
+				vnetPrintRec(rec)
+			}
+		}
+		return
+	}
 	in, flowsOut, probesOut := os.Getenv("VERIF_NET_CASES"), os.Getenv("VERIF_NET_FLOWS"), os.Getenv("VERIF_NET_PROBES")
 	if in == "" || flowsOut == "" || probesOut == "" {
 		t.Skip("VERIF_NET_CASES / VERIF_NET_FLOWS / VERIF_NET_PROBES not set")
@@ -37,30 +85,21 @@ func TestVerifNetImageBox(t *testing.T) {
 	if err != nil {
 		t.Fatal(err)
 	}
+	if os.Getenv("VERIF_NET_MODE") == "hist" {
+		nproc, err := vnetHistParent("TestVerifNetImageBox", cases, fw, filepath.Dir(flowsOut))
+		if err != nil {
+			t.Fatal(err)
+		}
+		fw.close()
+		pw.close()
+		fmt.Printf("SUMMARY {\"flows\":%d,\"probes\":0,\"dns_queries\":0,\"dns_rebinds\":0,\"processes\":%d}\n", fw.n, nproc)
+		return
+	}
 	vnetInstallResolver()
 	probed := map[string]bool{}
 	for _, c := range cases {
-		realPDF := &PDF{Timeout: 5}
-		real := realPDF.imageBoxHTTPClient()
-		info, realTr := vnetInspect(real, imageBoxRedirect)
-		if realTr == nil {
-			t.Fatalf("imageBoxHTTPClient does not use an *http.Transport: the shim has to be adapted")
-		}
-		run := vnetNewRun(c)
-		tr := realTr.Clone()
-		dialer := &net.Dialer{Timeout: 5 * time.Second, Control: run.control}
-		tr.DialContext = run.wrapHost(imageBoxDialContext(dialer))
-		client := *real
-		client.Transport = &vnetRT{run: run, real: tr}
-
-		pdf := &PDF{Timeout: 5, httpClient: &client}
-		ib := &ImageBox{pdf: pdf, Src: c.Hops[0].URL}
-		rc, err := ib.resource()
-		if rc != nil {
-			rc.Close()
-		}
-		tr.CloseIdleConnections()
-		fw.put(run.finish(info, fmt.Sprint(err)))
+		rec, realTr := vnetImageFetch(t, c, false)
+		fw.put(rec)
 
 		for _, hp := range c.Hops {
 			if hp.Host == "" {
